@@ -931,6 +931,7 @@ func main() {
 		[]leanParam{{"precision", "Int"}, {"precisionOk", "Bool"}}, map[string]bool{"state": true})
 	p.translateFunc(o, "printerSettings.digitCountWidth", "digitCountWidth", nil, nil)
 	p.emitGapLoopFact(o)
+	p.emitBuildResetFact(o)
 	o.line("")
 	p.emitFacts(o)
 	o.line("")
@@ -1049,4 +1050,94 @@ func (p *pkgInfo) emitGapLoopFact(o *out) {
 		o.problem("printer.Consume: gap loop not recognised")
 	}
 	o.line("def gapLoopChecksErr : Bool := %v", checks)
+}
+
+// emitBuildResetFact: PositionsBuilder.Build resets the builder with `*p = PositionsBuilder{}`
+// (empty literal: the slice header is dropped, not truncated) before every return, and on the
+// sorted path builds its result from a nil slice (`var result []PositionRange`).
+func (p *pkgInfo) emitBuildResetFact(o *out) {
+	fd := p.funcs["PositionsBuilder.Build"]
+	if fd == nil {
+		o.problem("PositionsBuilder.Build not found")
+		o.line("def buildFullReset : Bool := false")
+		o.line("def buildResultFresh : Bool := false")
+		return
+	}
+	recv := p.recvName(fd)
+	isReset := func(st ast.Stmt) bool {
+		as, ok := st.(*ast.AssignStmt)
+		if !ok || len(as.Lhs) != 1 || len(as.Rhs) != 1 || as.Tok != token.ASSIGN {
+			return false
+		}
+		star, ok := as.Lhs[0].(*ast.StarExpr)
+		if !ok {
+			return false
+		}
+		id, ok := star.X.(*ast.Ident)
+		if !ok || id.Name != recv {
+			return false
+		}
+		cl, ok := as.Rhs[0].(*ast.CompositeLit)
+		return ok && len(cl.Elts) == 0
+	}
+	allReset := true
+	returns := 0
+	var walk func(list []ast.Stmt)
+	walk = func(list []ast.Stmt) {
+		for i, st := range list {
+			switch v := st.(type) {
+			case *ast.ReturnStmt:
+				returns++
+				if i == 0 || !isReset(list[i-1]) {
+					allReset = false
+				}
+			case *ast.IfStmt:
+				walk(v.Body.List)
+				if b, ok := v.Else.(*ast.BlockStmt); ok {
+					walk(b.List)
+				}
+			case *ast.BlockStmt:
+				walk(v.List)
+			case *ast.ForStmt:
+				walk(v.Body.List)
+			case *ast.RangeStmt:
+				walk(v.Body.List)
+			}
+		}
+	}
+	walk(fd.Body.List)
+	// the sorted-path result: a `var result []T` declaration without initialiser, or := nil/make
+	fresh := false
+	ast.Inspect(fd.Body, func(n ast.Node) bool {
+		if ds, ok := n.(*ast.DeclStmt); ok {
+			if gd, ok := ds.Decl.(*ast.GenDecl); ok {
+				for _, sp := range gd.Specs {
+					vs := sp.(*ast.ValueSpec)
+					if len(vs.Values) == 0 {
+						if _, isSlice := vs.Type.(*ast.ArrayType); isSlice {
+							fresh = true
+						}
+					}
+				}
+			}
+		}
+		return true
+	})
+	// any other write to the receiver's slice besides the reset counts against it
+	ast.Inspect(fd.Body, func(n ast.Node) bool {
+		as, ok := n.(*ast.AssignStmt)
+		if !ok {
+			return true
+		}
+		for _, l := range as.Lhs {
+			if sel, ok := l.(*ast.SelectorExpr); ok {
+				if id, ok := sel.X.(*ast.Ident); ok && id.Name == recv && sel.Sel.Name == "ranges" {
+					allReset = false // p.ranges = … (e.g. p.ranges[:0]) keeps the backing array
+				}
+			}
+		}
+		return true
+	})
+	o.line("def buildFullReset : Bool := %v", allReset && returns > 0)
+	o.line("def buildResultFresh : Bool := %v", fresh)
 }
